@@ -27,7 +27,7 @@ INFO = {
                    "zero-free term list of the right polynomial; ==0, ==1 and truthiness agree with the representation "
                    "invariant (zero iff args in {[], [[0]]}) and == between different polynomials is False. NOT decided: "
                    "that compare is a total order for arbitrary monomials (only the representative merges), tosympy.",
-    "decided": ["C17.rational-identities", "C17.monomial-cancel", "C17.polynomial-arith", "C17.zero-test"],
+    "decided": ["C17.rational-identities", "C17.monomial-cancel", "C17.polynomial-arith", "C17.operands-intact", "C17.zero-test"],
     "not_decided": ["loop invariants of Polynomial for arbitrary term lists (sortedness is checked on representatives only)",
                     "tosympy / sympy evaluation", "float coefficient rounding"],
     "assumptions": ["term lists given to the constructor are sorted and duplicate free (the invariant the operators keep)"],
@@ -66,6 +66,22 @@ def as_poly(v):
         return Poly.const(v)
     if isinstance(v, float):
         return Poly.const(Fraction(v).limit_denominator(10 ** 9))
+    return None
+
+
+def malformed_terms(v):
+    """A concrete term list with a factor that is neither a number nor a variable name (e.g. None), or None."""
+    if isinstance(v, Obj) and v.kind == "RationalPolynomial":
+        return malformed_terms(v.attrs.get("numer")) or malformed_terms(v.attrs.get("denom"))
+    if isinstance(v, Obj) and v.kind == "Polynomial" and "poly" not in v.attrs:
+        a = v.attrs.get("args")
+        if isinstance(a, (list, tuple)):
+            for mono in a:
+                if not isinstance(mono, (list, tuple)):
+                    continue
+                for f in mono:
+                    if f is None or isinstance(f, (bool, list, tuple, dict)):
+                        return f"term {list(mono)!r} has the factor {f!r}"
     return None
 
 
@@ -328,7 +344,7 @@ def _invoke(it, label, me, args):
         return ("raise", r.name)
 
 
-@rule("C17.rational-identities", props=["C17", "C02", "C03", "C04", "C05", "C06", "C07", "C11"], min_instances=30, mutants=[
+@rule("C17.rational-identities", props=["C17", "C02", "C03", "C04", "C05", "C06", "C07", "C11", "C16"], min_instances=30, mutants=[
     ("sum numerator na*da + nb*db", ("polynomial", "            nn, nd = na * db + nb * da, da * db", "            nn, nd = na * da + nb * db, da * db")),
     ("equal-denominator shortcut keeps the product denominator", ("polynomial", "            nn = na + nb\n            nd = da", "            nn = na + nb\n            nd = da * db")),
     ("product shortcut returns self when other == 0", ("polynomial", "        if other == 0: return other\n        if other == 1: return self", "        if other == 0: return self\n        if other == 1: return self")),
@@ -448,9 +464,10 @@ MONO_CASES = [
 ]
 
 
-@rule("C17.monomial-cancel", props=["C17"], min_instances=5, mutants=[
+@rule("C17.monomial-cancel", props=["C17", "C02", "C03", "C04", "C05", "C06", "C07"], min_instances=5, mutants=[
     ("cancelled factor skipped on the numerator only", ("polynomial", "                if f1 == f2:\n                    p1 += 1; p2 += 1; continue;", "                if f1 == f2:\n                    p1 += 1; continue;")),
     ("leftover denominator factors appended to the numerator", ("polynomial", "                    nnd.append(f2); p2 += 1;", "                    nnn.append(f2); p2 += 1;")),
+    ("the numerator's factor kept in the denominator", ("polynomial", "                    nnd.append(f2); p2 += 1;", "                    nnd.append(f1); p2 += 1;")),
 ])
 def monomial_cancel(ctx):
     """Product of single-monomial fractions: the common-factor loop removes a factor from both sides only."""
@@ -471,6 +488,10 @@ def monomial_cancel(ctx):
             continue
         r = as_rational(out[1])
         if r is None:
+            bad = malformed_terms(out[1])
+            if bad:
+                ctx.violation(c, f"returns a fraction that is not a polynomial over the variables: {bad}", fn)
+                continue
             raise Unknown(c, f"returns {out[1]!r}", fn)
         Nr, Dr = r
         Ns = poly_from_args(n1) * poly_from_args(n2)
@@ -582,6 +603,92 @@ def polynomial_arith(ctx):
         except NoValue as exc:
             raise Unknown(c, str(exc), fn)
         _check_poly(ctx, c, fn, out, poly_from_args(POLY_REPS[l]) * Poly.const(Fraction(1) / Fraction(k)), f"({l}) / {k}")
+
+
+def _terms_snapshot(v):
+    """Deep copy of the term lists a Polynomial / RationalPolynomial stand-in holds (None if not concrete)."""
+    import copy
+    if isinstance(v, Obj) and v.kind == "RationalPolynomial":
+        return (_terms_snapshot(v.attrs.get("numer")), _terms_snapshot(v.attrs.get("denom")))
+    if isinstance(v, Obj) and v.kind == "Polynomial" and isinstance(v.attrs.get("args"), list):
+        return copy.deepcopy(v.attrs["args"])
+    return None
+
+
+@rule("C17.operands-intact", props=["C17", "C09"], min_instances=40, mutants=[
+    ("like terms are merged into the left operand's own monomial", ("polynomial", "                ea = ea.copy()\n                ea[0] += eb[0]\n                if ea[0] != 0:\n                    res.append(ea)", "                coeff = ea[0] + eb[0]\n                if coeff != 0:\n                    ea[0] = coeff\n                    res.append(ea)")),
+    ("negation flips the coefficients in place", ("polynomial", "        return self.__class__([[-monomial[0], *monomial[1:]] for monomial in self.args])", "        for monomial in self.args:\n            monomial[0] = -monomial[0]\n        return self")),
+])
+def operands_intact(ctx):
+    """Polynomial / RationalPolynomial arithmetic never writes into the term lists of its operands: the coefficients of
+    symbolic multivectors are such objects, shared between operands, earlier results and the codegen symbols, so an
+    operator that merged a term in place would change multivectors that were returned before."""
+    repo = ctx.repo
+    pairs = [("2a+3b", "-2a+c"), ("a", "a"), ("a+ab+b", "c+d"), ("5+a", "5+a"), ("2a+3b", "-3b"), ("ab", "a^2"), ("-a-ab", "a+ab+b"), ("5+a", "3")]
+    for meth in ("__add__", "__sub__", "__mul__"):
+        q = f"{P}.{meth}"
+        fn = ctx.func(q)
+        for l, r in pairs:
+            c = f"{q}#intact:({l}),({r})"
+            it = new_interp(repo)
+            try:
+                a = mk(it, "Polynomial", [list(m) for m in POLY_REPS[l]])
+                b = mk(it, "Polynomial", [list(m) for m in POLY_REPS[r]])
+                before = (_terms_snapshot(a), _terms_snapshot(b))
+                it.run(q, [a, b])
+            except NoValue as exc:
+                raise Unknown(c, str(exc), fn)
+            after = (_terms_snapshot(a), _terms_snapshot(b))
+            if None in before or None in after:
+                raise Unknown(c, "term lists of the operands are not concrete", fn)
+            if before == after:
+                ctx.ok(c, fn)
+            else:
+                which = "left" if before[0] != after[0] else "right"
+                i = 0 if which == "left" else 1
+                ctx.violation(c, f"({l}) {meth} ({r}) changes its {which} operand from {before[i]} to {after[i]}: every multivector, "
+                                 f"earlier result and symbol sharing that term list changes with it", fn)
+    for meth in ("__neg__",):
+        q = f"{P}.{meth}"
+        fn = ctx.func(q)
+        for l in ("2a+3b", "5+a", "a"):
+            c = f"{q}#intact:({l})"
+            it = new_interp(repo)
+            try:
+                a = mk(it, "Polynomial", [list(m) for m in POLY_REPS[l]])
+                before = _terms_snapshot(a)
+                it.run(q, [a])
+            except NoValue as exc:
+                raise Unknown(c, str(exc), fn)
+            if before == _terms_snapshot(a):
+                ctx.ok(c, fn)
+            else:
+                ctx.violation(c, f"-({l}) changes its operand from {before} to {_terms_snapshot(a)}", fn)
+    rats = [("(2a+3b)/c", "x/2"), ("x/2", "x/2"), ("a/1", "(5+a)/(3b)"), ("(2a+3b)/c", "(2a+3b)/c"), ("2xz/(3z)", "a/1")]
+    for meth in ("__add__", "__sub__", "__mul__", "__truediv__"):
+        q = f"{RP}.{meth}"
+        if not repo.has(q):
+            continue
+        fn = ctx.func(q)
+        for l, r in rats:
+            c = f"{q}#intact:[{l}],[{r}]"
+            it = new_interp(repo)
+            try:
+                a = mk(it, "RationalPolynomial", *[[list(m) for m in part] for part in TOSYMPY_RATIONALS[l]])
+                b = mk(it, "RationalPolynomial", *[[list(m) for m in part] for part in TOSYMPY_RATIONALS[r]])
+                before = (_terms_snapshot(a), _terms_snapshot(b))
+                it.run(q, [a, b])
+            except NoValue as exc:
+                raise Unknown(c, str(exc), fn)
+            after = (_terms_snapshot(a), _terms_snapshot(b))
+            if any(x is None or None in x for x in before + after):
+                raise Unknown(c, "term lists of the operands are not concrete", fn)
+            if before == after:
+                ctx.ok(c, fn)
+            else:
+                which = "left" if before[0] != after[0] else "right"
+                i = 0 if which == "left" else 1
+                ctx.violation(c, f"[{l}] {meth} [{r}] changes its {which} operand from {before[i]} to {after[i]}", fn)
 
 
 def _rat(num: Poly, den: Poly = None):
